@@ -190,6 +190,8 @@ def wrap_leaf(kind, t):
 def fresh_val(name, shape):
     if shape == "none":
         return VNone()
+    if shape == "xint":          # extended integer: an int or float('inf')
+        return VInt(fresh(name, I), inf=fresh(name + "_is_inf", B))
     if is_leaf(shape):
         return wrap_leaf(shape, fresh(name, LEAF_SORT[shape]))
     if shape[0] == "opt":
@@ -295,7 +297,7 @@ def seq_literal(shape, items):
 
 def shape_of(v):
     if isinstance(v, VInt):
-        return "int"
+        return "int" if v.inf is None else "xint"
     if isinstance(v, VBool):
         return "bool"
     if isinstance(v, VObj):
